@@ -225,6 +225,9 @@ func TestVerifC15(t *testing.T) {
 		"Synthetic-Short.txt": "Permission to frobnicate this software is hereby granted under the license terms below.\nEND OF TERMS AND CONDITIONS\ntrailing text that is cut",
 		"Synthetic-Only-Notice.txt": "Copyright 2020 Example Corp\nAll rights reserved.\n",
 		"Synthetic.header.txt": "This work is licensed under the synthetic license version 1 see the terms for your rights",
+		// a name with extensions inside it, and a file that says what another one says (in other case and wrapping)
+		"Synthetic.txt.dist.hash-2.txt": "Redistribution of the frobnicator in source and binary forms is permitted provided that this notice is retained in full",
+		"Synthetic-Twin.txt":            "REDISTRIBUTION OF THE FROBNICATOR\n   in source and binary forms\n   IS PERMITTED PROVIDED THAT THIS NOTICE IS RETAINED IN FULL",
 	}
 	licenseclassifier.ReadLicenseFile = func(name string) ([]byte, error) {
 		if s, ok := synth[name]; ok {
